@@ -64,7 +64,7 @@ def spec_matchers(tier):
           for n in ("c01_term_matchers", "c01_graph_name_matchers")]
     hs += [Harness(n, unwind=8, unwindset=US_LIT, extra_cbmc=["--unwindset", "memcmp.0:60"], timeout=400, mem_gb=10,
                    note="datatype / language-tag / quoted-triple / kind / closure matchers on the all-kinds term T2 against reference predicates")
-           for n in LIT_MATCHERS]
+           for n in LIT_MATCHERS if tier == "thorough" or n != "c01_triple_matcher"]   # (Some, Any, Some) tuple matcher: 150 s, thorough tier only
     return kprop.KSpec(
         package="sophia_api", crate_dir="api",
         harness_files={"api": [os.path.join(HA, "vt.rs"), os.path.join(HA, "c01_matchers.rs"), os.path.join(HA, "c02_terms.rs"), os.path.join(HA, "c01_matchers_lit.rs")]},
